@@ -264,6 +264,9 @@ func init() {
 			defer os.RemoveAll(dir)
 			res := &CaseResult{}
 			w := GenWorkload(r, ctx.Corpus, 1, GenOpts{NoAllOf: r.Chance(1, 2)})
+			if sr := r.Side("case-twin"); sr.Chance(1, 5) {
+				AddCaseTwin(sr, w)
+			}
 			p := &c15Payload{W: w, Sched: simrt.Schedule{Default: Pick(r, []simrt.Policy{simrt.Canonical, simrt.Reverse, simrt.Shuffle}), Seed: r.U64()}}
 			found := c15Check(ctx, res, dir, p, r.Fork("passes"))
 			var kinds []string
